@@ -156,6 +156,9 @@ type Conn struct {
 	closed bool
 	// OnClose is called once when this end is closed.
 	OnClose func()
+	// Local / Remote, when set, are what LocalAddr / RemoteAddr report (a
+	// listener world makes them look like the real network's addresses).
+	Local, Remote net.Addr
 }
 
 // NewConnPair returns the two ends of a simulated connection.
@@ -198,8 +201,18 @@ type addr string
 func (a addr) Network() string { return "sim" }
 func (a addr) String() string  { return string(a) }
 
-func (c *Conn) LocalAddr() net.Addr                { return addr(c.name) }
-func (c *Conn) RemoteAddr() net.Addr               { return addr(c.name + ".peer") }
+func (c *Conn) LocalAddr() net.Addr {
+	if c.Local != nil {
+		return c.Local
+	}
+	return addr(c.name)
+}
+func (c *Conn) RemoteAddr() net.Addr {
+	if c.Remote != nil {
+		return c.Remote
+	}
+	return addr(c.name + ".peer")
+}
 func (c *Conn) SetDeadline(t time.Time) error      { return nil }
 func (c *Conn) SetReadDeadline(t time.Time) error  { return nil }
 func (c *Conn) SetWriteDeadline(t time.Time) error { return nil }
